@@ -20,6 +20,7 @@ import (
 	"fmt"
 	"math/big"
 	"os"
+	"runtime/debug"
 	"strings"
 	"time"
 
@@ -64,6 +65,9 @@ var mname = map[int]string{mAdd: "Add", mSub: "Sub", mNeg: "Neg", mMul: "Mul", m
 	sSet: "Scalar.Set", sClone: "Scalar.Clone"}
 
 const np, ns = 4, 3
+
+// trace: the calls of the program being executed (diagnostics for panics outside the guarded calls)
+var trace []string
 
 type vec [3]*big.Int
 
@@ -272,7 +276,7 @@ func (r *runner) initPool() []*big.Int {
 func (r *runner) snapshot() []string {
 	var o []string
 	for _, p := range r.pts {
-		o = append(o, hg.Enc(p))
+		o = append(o, "p:"+hg.Enc(p))
 	}
 	for _, s := range r.scs {
 		o = append(o, "s:"+hg.ScalarVal(s).String())
@@ -281,11 +285,15 @@ func (r *runner) snapshot() []string {
 }
 
 func (r *runner) value(enc string) *big.Int {
+	// enc is a tagged observation: "s:"+decimal value of a scalar, "p:"+raw encoding of a point
+	// (raw point encodings are arbitrary bytes: they must never be inspected for a tag themselves)
 	if strings.HasPrefix(enc, "s:") {
-		v, _ := new(big.Int).SetString(enc[2:], 10)
-		return v
+		if v, ok := new(big.Int).SetString(enc[2:], 10); ok {
+			return v
+		}
+		return big.NewInt(-1)
 	}
-	if v, ok := r.tab[enc]; ok {
+	if v, ok := r.tab[enc[2:]]; ok {
 		return v
 	}
 	return big.NewInt(-1)
@@ -377,7 +385,7 @@ func (r *runner) apply(c *call, pts []kyber.Point, scs []kyber.Scalar) string {
 	}
 	_ = im
 	if rp != nil {
-		return hg.Enc(rp)
+		return "p:" + hg.Enc(rp)
 	}
 	return "s:" + hg.ScalarVal(rs).String()
 }
@@ -540,7 +548,7 @@ func (r *runner) step(c *call) (obs []*big.Int, ok bool) {
 	usedP, usedS := 0, 0
 	for i, cell := range c.env {
 		if cell < np {
-			fp[usedP] = im.FreshPoint(before[cell])
+			fp[usedP] = im.FreshPoint(before[cell][2:])
 			fenv[i] = usedP
 			usedP++
 		} else {
@@ -557,7 +565,7 @@ func (r *runner) step(c *call) (obs []*big.Int, ok bool) {
 	if pan, msg := vh.Try(func() {
 		r.apply(&fc, fp, fs)
 		if fenv[0] < np {
-			freshRecv = hg.Enc(fp[fenv[0]])
+			freshRecv = "p:" + hg.Enc(fp[fenv[0]])
 		} else {
 			freshRecv = "s:" + hg.ScalarVal(fs[fenv[0]-np]).String()
 		}
@@ -578,8 +586,8 @@ func (r *runner) step(c *call) (obs []*big.Int, ok bool) {
 	after := r.snapshot()
 	r.checkConstants(name+"["+pat+"]", false)
 	replay["after"] = hexAll(after)
-	replay["returned"] = vh.Hex([]byte(ret))
-	replay["fresh_result"] = vh.Hex([]byte(freshRecv))
+	replay["returned"] = hexAll([]string{ret})[0]
+	replay["fresh_result"] = hexAll([]string{freshRecv})[0]
 	rc := c.env[0]
 	if ret != after[rc] {
 		r.rep.Fail(name+"/receiver-differs-from-result", "the receiver does not hold the value the method returned", replay)
@@ -607,7 +615,7 @@ func hexAll(s []string) []string {
 		if strings.HasPrefix(x, "s:") {
 			o = append(o, x)
 		} else {
-			o = append(o, vh.Hex([]byte(x)))
+			o = append(o, vh.Hex([]byte(x[2:])))
 		}
 	}
 	return o
@@ -615,7 +623,15 @@ func hexAll(s []string) []string {
 
 // runProgram executes the calls produced by gen (gen returns nil to stop) and emits a case
 func (r *runner) runProgram(id int, gen func(k int) *call, items *[]string) {
+	trace = trace[:0]
 	init := r.initPool()
+	{
+		var iv []string
+		for _, v := range init {
+			iv = append(iv, v.String())
+		}
+		trace = append(trace, "init "+strings.Join(iv, ","))
+	}
 	var calls []string
 	var observed []string
 	var desc []string
@@ -627,6 +643,7 @@ func (r *runner) runProgram(id int, gen func(k int) *call, items *[]string) {
 		if !r.supported(c.m) || !r.fill(c) {
 			continue
 		}
+		trace = append(trace, fmt.Sprintf("%s%v k=%d data=%x", mname[c.m], c.env, c.k, c.data))
 		obs, ok := r.step(c)
 		if !ok {
 			break
@@ -1009,9 +1026,14 @@ func main() {
 		t0 := time.Now()
 		go func() {
 			defer close(done)
-			if pan, msg := vh.Try(func() { subID = runImpl(im, imRng, sub, &subItems, subID, draws, progs, o.Search) }); pan {
-				sub.Fail(im.Name+"/harness-panic", msg, nil)
-			}
+			defer func() {
+				if e := recover(); e != nil {
+					sub.Fail(im.Name+"/harness-panic", fmt.Sprint(e), map[string]interface{}{"impl": im.Name,
+						"stack": string(debug.Stack()), "current_program": append([]string{}, trace...)})
+				}
+			}()
+			trace = trace[:0]
+			subID = runImpl(im, imRng, sub, &subItems, subID, draws, progs, o.Search)
 		}()
 		limit := 90 * time.Second
 		if o.Thorough || o.Search {
